@@ -82,13 +82,13 @@ fn vp_native_from_env_matrix() {
         }
     } } } } } } } }
     // NO_PROXY tokenisation
-    let pieces = ["corp.test", " corp.test", ".corp.test", " .corp.test", ". corp.test", "CORP.TEST ", "", " ", "other"];
+    let pieces = ["corp.test", " corp.test", ".corp.test", " .corp.test", ". corp.test", "CORP.TEST ", "", " ", "other", "notcorp.test", "www.corp.test", "test", "rp.test"];
     for a in pieces { for b in pieces {
         clear();
         std::env::set_var("all_proxy", "http://p1.test:1");
         std::env::set_var("no_proxy", format!("{},{}", a, b));
         let s = ProxySettings::from_env();
-        for host in ["corp.test", "www.corp.test", "notcorp.test", "other", "x.other", "h.test"] {
+        for host in ["corp.test", "www.corp.test", "notcorp.test", "a.notcorp.test", "xnotcorp.test", "rp.test", "test", "other", "x.other", "h.test"] {
             let norm = |p: &str| p.trim().trim_start_matches('.').to_lowercase();
             let bypassed = bypass_spec(host, &norm(a)) || bypass_spec(host, &norm(b));
             let got = s.for_url(&Url::parse(&format!("http://{}/", host)).unwrap()).is_some();
